@@ -622,8 +622,11 @@ FIT_FH_UPD0 = ("fit(y, fh=[1,2,3]); update(y_new, update_params=False)",
 
 def fc_subject(label, make, n, kind, start, seed, fit, calls, n_jobs=(), positive=True, refit=True):
     fit_label, fit_fn = fit
-    # the earlier fit is given a horizon: on this snapshot a second fit without any horizon raises (see KF below)
-    other = (lambda f, d: f.fit(d["y_other"], fh=d["fh_out"])) if refit else None
+    # the earlier fit on other data is given a horizon exactly when the fit under test is
+    if "fh=" in fit_label:
+        other = (lambda f, d: f.fit(d["y_other"], fh=d["fh_out"])) if refit else None
+    else:
+        other = (lambda f, d: f.fit(d["y_other"])) if refit else None
     return Subject(f"{label} [{fit_label}; n={n}, {kind} index from {start}, data seed {seed}]",
                    make, fc_data(n, kind, start, seed, positive=positive), fit_fn, calls, n_jobs=n_jobs,
                    other_fit=other)
@@ -776,7 +779,8 @@ def forecaster_subjects(tier, seed):
 
 
 def forecaster_protocol_checks(R, tier, seed):
-    """two call sequences outside the generic protocol (both end in a triaged defect of the unchanged tree)"""
+    """two call sequences outside the generic protocol: (a) the horizon stored by fit survives a predict with another
+    horizon (a triaged defect of the unchanged tree: narrow KF key), (b) a second fit without any horizon"""
     from sktime.forecasting.compose import EnsembleForecaster
     from sktime.forecasting.exp_smoothing import ExponentialSmoothing
     from sktime.forecasting.naive import NaiveForecaster
@@ -826,8 +830,7 @@ def forecaster_protocol_checks(R, tier, seed):
                 _quiet(lambda: f.fit(d["y"]))
                 r = _quiet(lambda: f.predict(fh=d["fh_out"]))
             except Exception as e:
-                kf = isinstance(e, ValueError) and "The forecasting horizon `fh` must be passed" in str(e)
-                R.check("KF:second-fit-without-fh-raises" if kf else K_REFIT, False,
+                R.check(K_REFIT, False,
                         f"{desc}: fit(y_other); set_params(own params); fit(y) (no horizon anywhere) raised {_err(e)}")
                 continue
             R.check(K_REFIT, same(r, ref), f"{desc}: fit(y_other); set_params(own params); fit(y); predict(fh=[1,2,3]) "
@@ -976,12 +979,12 @@ def series_transformer_subjects(tier, seed):
 
     # ---- invertible transformers (univariate)
     def uni(label, make, inverse=True, fits=(ST_FIT,), positive=True, containers=("series",), later=True, k=1,
-            no_period=False, n_min=0):
+            no_period=False, no_datetime=False, n_min=0):
         for ci, container in enumerate(containers):
             for fi, fit in enumerate(fits):
                 for (n, kind, start) in pick(len(out) + fi, k):
-                    if no_period and kind in ("period", "datetime"):
-                        kind = "int64"
+                    if (no_period and kind in ("period", "datetime")) or (no_datetime and kind == "datetime"):
+                        kind = "int64"      # (forecasters inside a transformer: no period / datetime arithmetic here)
                     out.append(st_subject(label, make, max(n, n_min), kind, start, seed + fi, container,
                                           st_calls(inverse, later=later), fit=fit, positive=positive))
 
@@ -1003,9 +1006,9 @@ def series_transformer_subjects(tier, seed):
     uni("Detrender(PolynomialTrendForecaster(degree=2))",
         lambda **o: Detrender(PolynomialTrendForecaster(degree=2)), fits=(ST_FIT, ST_FIT_UPDATE0), no_period=True)
     uni("Detrender(NaiveForecaster('mean', window_length=3))",
-        lambda **o: Detrender(NaiveForecaster("mean", window_length=3)), fits=(ST_FIT, ST_FIT_UPDATE0))
+        lambda **o: Detrender(NaiveForecaster("mean", window_length=3)), fits=(ST_FIT, ST_FIT_UPDATE0), no_datetime=True)
     uni("Detrender(NaiveForecaster('last', sp=4))",
-        lambda **o: Detrender(NaiveForecaster("last", sp=4)), fits=(ST_FIT,))
+        lambda **o: Detrender(NaiveForecaster("last", sp=4)), fits=(ST_FIT,), no_datetime=True)
     uni("AutoCorrelationTransformer(n_lags=4)", lambda **o: AutoCorrelationTransformer(n_lags=4), inverse=False)
     uni("PartialAutoCorrelationTransformer(n_lags=3)", lambda **o: PartialAutoCorrelationTransformer(n_lags=3),
         inverse=False)
@@ -1187,14 +1190,6 @@ def clf_subject(label, make, n_inst, n_cols, m, seed, container, n_jobs=(), prob
                    fresh_refs=fresh_refs, reproducible=reproducible, kf_raise=kf_raise)
 
 
-def kf_boss_n_jobs_none(over, e):
-    """BOSSEnsemble / ContractableBOSS compare `self.n_jobs > 1` without check_n_jobs: n_jobs=None raises TypeError"""
-    if "n_jobs" in over and over["n_jobs"] is None and isinstance(e, TypeError) \
-            and "'>' not supported between instances of 'NoneType' and 'int'" in str(e):
-        return "KF:boss-ensembles-reject-n_jobs-None"
-    return None
-
-
 def classifier_subjects(tier, seed):
     from sktime.classification.compose import ColumnEnsembleClassifier
     from sktime.classification.dictionary_based import (BOSSEnsemble, ContractableBOSS, IndividualBOSS, IndividualTDE,
@@ -1225,12 +1220,12 @@ def classifier_subjects(tier, seed):
     # (a fit with n_jobs > 1 costs ~1.5 s under the threading backend, with n_jobs=1 ~0.1 s)
     add("BOSSEnsemble(max_ensemble_size=5, min_window=16)",
         lambda n_jobs=1, **o: BOSSEnsemble(max_ensemble_size=5, min_window=16, n_jobs=n_jobs, **o),
-        n_data=3, n_jobs=NJ, n_jobs_quick=((None, 2), (4,), (2,)), kf_raise=kf_boss_n_jobs_none)
+        n_data=3, n_jobs=NJ, n_jobs_quick=((None, 2), (4,), (2,)))
     if thorough:
       add("BOSSEnsemble(threshold=0.8, max_ensemble_size=3, min_window=20, max_win_len_prop=0.8)",
           lambda n_jobs=1, **o: BOSSEnsemble(threshold=0.8, max_ensemble_size=3, min_window=20, max_win_len_prop=0.8,
                                              n_jobs=n_jobs, **o),
-          n_inst=8, n_jobs=NJ, kf_raise=kf_boss_n_jobs_none)
+          n_inst=8, n_jobs=NJ)
     add("IndividualBOSS(window_size=16, word_length=8)",
         lambda n_jobs=1, **o: IndividualBOSS(window_size=16, word_length=8, n_jobs=n_jobs, **o), n_jobs=NJ,
         n_jobs_quick=((None, 2),))
@@ -1240,7 +1235,7 @@ def classifier_subjects(tier, seed):
     add("ContractableBOSS(n_parameter_samples=8, max_ensemble_size=3, min_window=16)",
         lambda n_jobs=1, **o: ContractableBOSS(n_parameter_samples=8, max_ensemble_size=3, min_window=16,
                                                n_jobs=n_jobs, **o),
-        n_jobs=NJ, n_jobs_quick=((None, 2),), kf_raise=kf_boss_n_jobs_none)
+        n_jobs=NJ, n_jobs_quick=((None, 2),))
     add("IndividualTDE(window_size=16, word_length=8)",
         lambda n_jobs=1, **o: IndividualTDE(window_size=16, word_length=8, n_jobs=n_jobs, **o), n_jobs=NJ,
         n_jobs_quick=((None, 2),))
@@ -1348,9 +1343,7 @@ def replay(rec):
                                           "bossensemble(max", "deseasonalizer(sp=4", "sfa("))
         _run_all(R, "quick", seed, name_filter=flt, limit=6, protocol_checks=about_fh)
     # the triaged defects of the unchanged tree only count when the record is about them
-    relevant = {"KF:boss-ensembles-reject-n_jobs-None": "n_jobs" in text,
-                "KF:predict-without-fh-returns-horizon-of-previous-predict": about_fh,
-                "KF:second-fit-without-fh-raises": about_fh}
+    relevant = {"KF:predict-without-fh-returns-horizon-of-previous-predict": about_fh}
     R.failures = [f for f in R.failures if relevant.get(f["key"], True)]
     return {"reproduced": bool(R.failures), "detail": R.failures[:3],
             "input": {"families": wanted or "representative subset", "seed": seed, "cases": R.cases}}
